@@ -105,6 +105,51 @@ func c09Check(cs c09Case) string {
 			return fmt.Sprintf("%q: %s", cs.A, ta)
 		}
 		return ""
+	case "postfix":
+		// a path element directly behind a term means the same as behind the bracketed term
+		tb, okb := c09Tree(cs.B)
+		if !okb {
+			return ""
+		}
+		if !oka {
+			return fmt.Sprintf("%q is rejected (%s) but %q parses", cs.A, ta, cs.B)
+		}
+		if ta != tb {
+			return fmt.Sprintf("%q does not parse like %q:\n  got  %s\n  want %s", cs.A, cs.B, clip(ta, 400), clip(tb, 400))
+		}
+		return ""
+	case "same-result":
+		// two spellings that differ in redundant brackets inside a string interpolation: the expression text is taken apart when it
+		// is evaluated, so they are compared by what they yield
+		var outs [2]string
+		for i, e := range []string{cs.A, cs.B} {
+			p, err, pan := impl.Parse(e)
+			if err != nil || pan != nil {
+				outs[i] = fmt.Sprintf("PARSE-ERROR %v %v", err, pan)
+				continue
+			}
+			for _, d := range []string{`{"a": 1, "b": [2, 3], "c": {"d": "x"}}`, `{"a": "s", "b": null}`} {
+				res, eerr, epan := impl.Eval(p, impl.Doc(fromJSONText(d)))
+				switch {
+				case epan != nil:
+					outs[i] += fmt.Sprintf("PANIC %v;", epan)
+				case eerr != nil:
+					outs[i] += "ERROR;"
+				default:
+					for _, r := range res {
+						outs[i] += impl.ToV(r).String() + ";"
+					}
+				}
+				outs[i] += "|"
+			}
+		}
+		if strings.Contains(outs[1], "PARSE-ERROR") {
+			return "" // the reference spelling is not in this version's vocabulary
+		}
+		if outs[0] != outs[1] {
+			return fmt.Sprintf("%q yields %s but %q yields %s", cs.A, outs[0], cs.B, outs[1])
+		}
+		return ""
 	default:
 		tb, okb := c09Tree(cs.B)
 		if !okb {
@@ -157,6 +202,88 @@ var c09LayoutExprs = [][]string{
 	{"sort_by(", ".a", ")"}, {"has(", `"a"`, ")"}, {".a", "*", ".b"}, {".a", "*+", ".b"}, {"1", "-", "2"}, {"true", "or", "false"}, {"null"}, {`"a b"`}, {".a[0]"}, {".a.b"},
 	{`.["a"]`}, {".[", "0", "]"}, {".a", "|", "to_json"}, {"[", ".[]", "|", ".a", "]"}, {".a", "<", "3", "and", ".b", ">=", "1"}, {"not"}, {".a", "|", "not"}, {"to_entries"},
 	{"group_by(", ".a", ")", "|", ".[0]"}, {".a", "+=", "1"}, {".a", "-=", "1"}, {".a", "*=", ".b"}, {"(", ".a", ",", ".b", ")", "=", "1"}, {".a", "!=", "null"}, {"1.5", "/", "2"}, {"-1", "%", "2"},
+}
+
+// c09Terms: one spelling per kind of term; c09NoPostfix lists the (term, path element) pairs that are not expressions in the pinned
+// grammar (only paths, variables, brackets and operators whose type sets CheckForPostTraverse take a path element directly).
+var c09Terms = []string{
+	".a", ".[0]", ".[]", "..", "$x", "parent", "parent(2)", "key", "path", "keys", "length", "to_entries", "flatten", "flatten(1)", "to_json", "to_json(1)", "to_yaml(1)", "to_xml(1)", "from_json", "from_yaml",
+	"env(HOME)", "strenv(HOME)", `"a"`, "1", "true", "null", "[]", "{}", "[.a]", `{"k": 1}`, "select(.a)", "map(.a)", "sort_by(.a)", `has("a")`, "filename", "file_index", "document_index", "now", "tag", "kind",
+	"anchor", "line", "column", "explode(.)", "with_entries(.)", "to_props", "@json", "@base64", "@base64d", "sort", "reverse", "unique", "any", "all", "not", "min", "max", "pivot", "upcase", "trim", `omit(["a"])`, `pick(["a"])`,
+	`sub("a"; "b")`, `test("a")`, `split(",")`, `join(",")`, `load("f")`, "splitDoc", "sort_keys(.)", "group_by(.a)", "unique_by(.a)", "del(.a)", "with(.a; .b = 1)", "eval(.a)", "to_number", "to_string", "map_values(.)",
+	"filter(.a)", "any_c(.a)", "all_c(.a)", "array_to_map", "from_entries", "comments", "line_comment", "head_comment", "foot_comment", "style", "alias", "envsubst", "shuffle", "first", "to_unix", "from_unix", "tz(\"UTC\")",
+}
+
+var c09Postfixes = []string{".k", ".k.j", "[0]", "[]", `["k"]`, `.["k"]`, "[0].k", ".k[0]", "[1:]", ".k?"}
+
+var c09NoPostfix = map[string]bool{
+	`...k`: true, `...k.j`: true, `..[0]`: true, `..[]`: true, `..["k"]`: true, `...["k"]`: true, `..[0].k`: true, `...k[0]`: true, `..[1:]`: true, `...k?`: true,
+	`parent[0]`: true, `parent[]`: true, `parent["k"]`: true, `parent[0].k`: true, `parent[1:]`: true, `parent(2)[0]`: true, `parent(2)[]`: true, `parent(2)["k"]`: true,
+	`parent(2)[0].k`: true, `parent(2)[1:]`: true, `key.k`: true, `key.k.j`: true, `key[0]`: true, `key[]`: true, `key["k"]`: true, `key.["k"]`: true, `key[0].k`: true,
+	`key.k[0]`: true, `key[1:]`: true, `key.k?`: true, `length.k`: true, `length.k.j`: true, `length[0]`: true, `length[]`: true, `length["k"]`: true, `length.["k"]`: true,
+	`length[0].k`: true, `length.k[0]`: true, `length[1:]`: true, `length.k?`: true, `to_json.k`: true, `to_json.k.j`: true, `to_json[0]`: true, `to_json[]`: true,
+	`to_json["k"]`: true, `to_json.["k"]`: true, `to_json[0].k`: true, `to_json.k[0]`: true, `to_json[1:]`: true, `to_json.k?`: true, `to_json(1).k`: true,
+	`to_json(1).k.j`: true, `to_json(1)[0]`: true, `to_json(1)[]`: true, `to_json(1)["k"]`: true, `to_json(1).["k"]`: true, `to_json(1)[0].k`: true,
+	`to_json(1).k[0]`: true, `to_json(1)[1:]`: true, `to_json(1).k?`: true, `to_yaml(1).k`: true, `to_yaml(1).k.j`: true, `to_yaml(1)[0]`: true, `to_yaml(1)[]`: true,
+	`to_yaml(1)["k"]`: true, `to_yaml(1).["k"]`: true, `to_yaml(1)[0].k`: true, `to_yaml(1).k[0]`: true, `to_yaml(1)[1:]`: true, `to_yaml(1).k?`: true, `to_xml(1).k`: true,
+	`to_xml(1).k.j`: true, `to_xml(1)[0]`: true, `to_xml(1)[]`: true, `to_xml(1)["k"]`: true, `to_xml(1).["k"]`: true, `to_xml(1)[0].k`: true, `to_xml(1).k[0]`: true,
+	`to_xml(1)[1:]`: true, `to_xml(1).k?`: true, `from_json.k`: true, `from_json.k.j`: true, `from_json[0]`: true, `from_json[]`: true, `from_json["k"]`: true,
+	`from_json.["k"]`: true, `from_json[0].k`: true, `from_json.k[0]`: true, `from_json[1:]`: true, `from_json.k?`: true, `from_yaml.k`: true, `from_yaml.k.j`: true,
+	`from_yaml[0]`: true, `from_yaml[]`: true, `from_yaml["k"]`: true, `from_yaml.["k"]`: true, `from_yaml[0].k`: true, `from_yaml.k[0]`: true, `from_yaml[1:]`: true,
+	`from_yaml.k?`: true, `"a".k`: true, `"a".k.j`: true, `"a"[0]`: true, `"a"[]`: true, `"a"["k"]`: true, `"a".["k"]`: true, `"a"[0].k`: true, `"a".k[0]`: true,
+	`"a"[1:]`: true, `"a".k?`: true, `1.k`: true, `1.k.j`: true, `1[0]`: true, `1[]`: true, `1["k"]`: true, `1.["k"]`: true, `1[0].k`: true, `1.k[0]`: true, `1[1:]`: true,
+	`1.k?`: true, `true.k`: true, `true.k.j`: true, `true[0]`: true, `true[]`: true, `true["k"]`: true, `true.["k"]`: true, `true[0].k`: true, `true.k[0]`: true,
+	`true[1:]`: true, `true.k?`: true, `null.k`: true, `null.k.j`: true, `null[0]`: true, `null[]`: true, `null["k"]`: true, `null.["k"]`: true, `null[0].k`: true,
+	`null.k[0]`: true, `null[1:]`: true, `null.k?`: true, `has("a")[0]`: true, `has("a")[]`: true, `has("a")["k"]`: true, `has("a")[0].k`: true, `has("a")[1:]`: true,
+	`filename.k`: true, `filename.k.j`: true, `filename[0]`: true, `filename[]`: true, `filename["k"]`: true, `filename.["k"]`: true, `filename[0].k`: true,
+	`filename.k[0]`: true, `filename[1:]`: true, `filename.k?`: true, `file_index.k`: true, `file_index.k.j`: true, `file_index[0]`: true, `file_index[]`: true,
+	`file_index["k"]`: true, `file_index.["k"]`: true, `file_index[0].k`: true, `file_index.k[0]`: true, `file_index[1:]`: true, `file_index.k?`: true,
+	`document_index.k`: true, `document_index.k.j`: true, `document_index[0]`: true, `document_index[]`: true, `document_index["k"]`: true, `document_index.["k"]`: true,
+	`document_index[0].k`: true, `document_index.k[0]`: true, `document_index[1:]`: true, `document_index.k?`: true, `now.k`: true, `now.k.j`: true, `now[0]`: true,
+	`now[]`: true, `now["k"]`: true, `now.["k"]`: true, `now[0].k`: true, `now.k[0]`: true, `now[1:]`: true, `now.k?`: true, `tag.k`: true, `tag.k.j`: true, `tag[0]`: true,
+	`tag[]`: true, `tag["k"]`: true, `tag.["k"]`: true, `tag[0].k`: true, `tag.k[0]`: true, `tag[1:]`: true, `tag.k?`: true, `kind.k`: true, `kind.k.j`: true,
+	`kind[0]`: true, `kind[]`: true, `kind["k"]`: true, `kind.["k"]`: true, `kind[0].k`: true, `kind.k[0]`: true, `kind[1:]`: true, `kind.k?`: true, `anchor.k`: true,
+	`anchor.k.j`: true, `anchor[0]`: true, `anchor[]`: true, `anchor["k"]`: true, `anchor.["k"]`: true, `anchor[0].k`: true, `anchor.k[0]`: true, `anchor[1:]`: true,
+	`anchor.k?`: true, `line.k`: true, `line.k.j`: true, `line[0]`: true, `line[]`: true, `line["k"]`: true, `line.["k"]`: true, `line[0].k`: true, `line.k[0]`: true,
+	`line[1:]`: true, `line.k?`: true, `column.k`: true, `column.k.j`: true, `column[0]`: true, `column[]`: true, `column["k"]`: true, `column.["k"]`: true,
+	`column[0].k`: true, `column.k[0]`: true, `column[1:]`: true, `column.k?`: true, `with_entries(.)[0]`: true, `with_entries(.)[]`: true, `with_entries(.)["k"]`: true,
+	`with_entries(.)[0].k`: true, `with_entries(.)[1:]`: true, `to_props.k`: true, `to_props.k.j`: true, `to_props[0]`: true, `to_props[]`: true, `to_props["k"]`: true,
+	`to_props.["k"]`: true, `to_props[0].k`: true, `to_props.k[0]`: true, `to_props[1:]`: true, `to_props.k?`: true, `@json.k`: true, `@json.k.j`: true, `@json[0]`: true,
+	`@json[]`: true, `@json["k"]`: true, `@json.["k"]`: true, `@json[0].k`: true, `@json.k[0]`: true, `@json[1:]`: true, `@json.k?`: true, `@base64.k`: true,
+	`@base64.k.j`: true, `@base64[0]`: true, `@base64[]`: true, `@base64["k"]`: true, `@base64.["k"]`: true, `@base64[0].k`: true, `@base64.k[0]`: true,
+	`@base64[1:]`: true, `@base64.k?`: true, `@base64d.k`: true, `@base64d.k.j`: true, `@base64d[0]`: true, `@base64d[]`: true, `@base64d["k"]`: true,
+	`@base64d.["k"]`: true, `@base64d[0].k`: true, `@base64d.k[0]`: true, `@base64d[1:]`: true, `@base64d.k?`: true, `any.k`: true, `any.k.j`: true, `any[0]`: true,
+	`any[]`: true, `any["k"]`: true, `any.["k"]`: true, `any[0].k`: true, `any.k[0]`: true, `any[1:]`: true, `any.k?`: true, `all.k`: true, `all.k.j`: true, `all[0]`: true,
+	`all[]`: true, `all["k"]`: true, `all.["k"]`: true, `all[0].k`: true, `all.k[0]`: true, `all[1:]`: true, `all.k?`: true, `not.k`: true, `not.k.j`: true, `not[0]`: true,
+	`not[]`: true, `not["k"]`: true, `not.["k"]`: true, `not[0].k`: true, `not.k[0]`: true, `not[1:]`: true, `not.k?`: true, `min.k`: true, `min.k.j`: true, `min[0]`: true,
+	`min[]`: true, `min["k"]`: true, `min.["k"]`: true, `min[0].k`: true, `min.k[0]`: true, `min[1:]`: true, `min.k?`: true, `max.k`: true, `max.k.j`: true, `max[0]`: true,
+	`max[]`: true, `max["k"]`: true, `max.["k"]`: true, `max[0].k`: true, `max.k[0]`: true, `max[1:]`: true, `max.k?`: true, `upcase.k`: true, `upcase.k.j`: true,
+	`upcase[0]`: true, `upcase[]`: true, `upcase["k"]`: true, `upcase.["k"]`: true, `upcase[0].k`: true, `upcase.k[0]`: true, `upcase[1:]`: true, `upcase.k?`: true,
+	`trim.k`: true, `trim.k.j`: true, `trim[0]`: true, `trim[]`: true, `trim["k"]`: true, `trim.["k"]`: true, `trim[0].k`: true, `trim.k[0]`: true, `trim[1:]`: true,
+	`trim.k?`: true, `sub("a"; "b")[0]`: true, `sub("a"; "b")[]`: true, `sub("a"; "b")["k"]`: true, `sub("a"; "b")[0].k`: true, `sub("a"; "b")[1:]`: true,
+	`test("a")[0]`: true, `test("a")[]`: true, `test("a")["k"]`: true, `test("a")[0].k`: true, `test("a")[1:]`: true, `join(",")[0]`: true, `join(",")[]`: true,
+	`join(",")["k"]`: true, `join(",")[0].k`: true, `join(",")[1:]`: true, `del(.a).k`: true, `del(.a).k.j`: true, `del(.a)[0]`: true, `del(.a)[]`: true,
+	`del(.a)["k"]`: true, `del(.a).["k"]`: true, `del(.a)[0].k`: true, `del(.a).k[0]`: true, `del(.a)[1:]`: true, `del(.a).k?`: true, `to_number.k`: true,
+	`to_number.k.j`: true, `to_number[0]`: true, `to_number[]`: true, `to_number["k"]`: true, `to_number.["k"]`: true, `to_number[0].k`: true, `to_number.k[0]`: true,
+	`to_number[1:]`: true, `to_number.k?`: true, `to_string.k`: true, `to_string.k.j`: true, `to_string[0]`: true, `to_string[]`: true, `to_string["k"]`: true,
+	`to_string.["k"]`: true, `to_string[0].k`: true, `to_string.k[0]`: true, `to_string[1:]`: true, `to_string.k?`: true, `any_c(.a)[0]`: true, `any_c(.a)[]`: true,
+	`any_c(.a)["k"]`: true, `any_c(.a)[0].k`: true, `any_c(.a)[1:]`: true, `all_c(.a)[0]`: true, `all_c(.a)[]`: true, `all_c(.a)["k"]`: true, `all_c(.a)[0].k`: true,
+	`all_c(.a)[1:]`: true, `array_to_map.k`: true, `array_to_map.k.j`: true, `array_to_map[0]`: true, `array_to_map[]`: true, `array_to_map["k"]`: true,
+	`array_to_map.["k"]`: true, `array_to_map[0].k`: true, `array_to_map.k[0]`: true, `array_to_map[1:]`: true, `array_to_map.k?`: true, `from_entries.k`: true,
+	`from_entries.k.j`: true, `from_entries[0]`: true, `from_entries[]`: true, `from_entries["k"]`: true, `from_entries.["k"]`: true, `from_entries[0].k`: true,
+	`from_entries.k[0]`: true, `from_entries[1:]`: true, `from_entries.k?`: true, `line_comment.k`: true, `line_comment.k.j`: true, `line_comment[0]`: true,
+	`line_comment[]`: true, `line_comment["k"]`: true, `line_comment.["k"]`: true, `line_comment[0].k`: true, `line_comment.k[0]`: true, `line_comment[1:]`: true,
+	`line_comment.k?`: true, `head_comment.k`: true, `head_comment.k.j`: true, `head_comment[0]`: true, `head_comment[]`: true, `head_comment["k"]`: true,
+	`head_comment.["k"]`: true, `head_comment[0].k`: true, `head_comment.k[0]`: true, `head_comment[1:]`: true, `head_comment.k?`: true, `foot_comment.k`: true,
+	`foot_comment.k.j`: true, `foot_comment[0]`: true, `foot_comment[]`: true, `foot_comment["k"]`: true, `foot_comment.["k"]`: true, `foot_comment[0].k`: true,
+	`foot_comment.k[0]`: true, `foot_comment[1:]`: true, `foot_comment.k?`: true, `style.k`: true, `style.k.j`: true, `style[0]`: true, `style[]`: true, `style["k"]`: true,
+	`style.["k"]`: true, `style[0].k`: true, `style.k[0]`: true, `style[1:]`: true, `style.k?`: true, `alias.k`: true, `alias.k.j`: true, `alias[0]`: true, `alias[]`: true,
+	`alias["k"]`: true, `alias.["k"]`: true, `alias[0].k`: true, `alias.k[0]`: true, `alias[1:]`: true, `alias.k?`: true, `envsubst.k`: true, `envsubst.k.j`: true,
+	`envsubst[0]`: true, `envsubst[]`: true, `envsubst["k"]`: true, `envsubst.["k"]`: true, `envsubst[0].k`: true, `envsubst.k[0]`: true, `envsubst[1:]`: true,
+	`envsubst.k?`: true, `to_unix.k`: true, `to_unix.k.j`: true, `to_unix[0]`: true, `to_unix[]`: true, `to_unix["k"]`: true, `to_unix.["k"]`: true, `to_unix[0].k`: true,
+	`to_unix.k[0]`: true, `to_unix[1:]`: true, `to_unix.k?`: true, `from_unix.k`: true, `from_unix.k.j`: true, `from_unix[0]`: true, `from_unix[]`: true,
+	`from_unix["k"]`: true, `from_unix.["k"]`: true, `from_unix[0].k`: true, `from_unix.k[0]`: true, `from_unix[1:]`: true, `from_unix.k?`: true, `tz("UTC")[0]`: true,
+	`tz("UTC")[]`: true, `tz("UTC")["k"]`: true, `tz("UTC")[0].k`: true, `tz("UTC")[1:]`: true,
 }
 
 var c09Fillers = []string{" ", "\n", "  ", "\t", " # c\n", "\r\n", "\n\n"}
@@ -242,6 +369,38 @@ func c09Run(c *fw.Ctx) error {
 						do(c09Case{Kind: "quad", A: bare, B: want}, fmt.Sprintf("quad/%s_%s_%s_%s", o1, o2, o3, o4), 5e6)
 					}
 				}
+			}
+		}
+	}
+	// postfix paths: every term that the pinned grammar lets a path element follow directly, with every kind of path element
+	for ti, term := range c09Terms {
+		for pi, post := range c09Postfixes {
+			if c09NoPostfix[term+post] {
+				continue
+			}
+			do(c09Case{Kind: "postfix", A: term + post, B: "(" + term + ")" + post}, "postfix/"+term, 6e6+int64(ti*100+pi))
+			do(c09Case{Kind: "postfix", A: term + post + " | length", B: "((" + term + ")" + post + ") | length"}, "postfix/"+term, 6e6+int64(ti*100+pi))
+		}
+	}
+	// string interpolation: redundant brackets inside any segment
+	segs := []string{".a", ".b[0]", ".c.d", "(.a)", "((.b[1]))", "(.a | length)", `(.c | .d)`, ".a + 1", `"n"`}
+	for _, s1 := range segs {
+		for _, s2 := range segs {
+			for _, s3 := range []string{"", ".a", "(.a)"} {
+				build := func(wrap bool) string {
+					w := func(x string) string {
+						if wrap {
+							return "(" + x + ")"
+						}
+						return x
+					}
+					t := `"p\(` + w(s1) + `) q\(` + w(s2) + `)`
+					if s3 != "" {
+						t += ` r\(` + w(s3) + `)`
+					}
+					return t + `"`
+				}
+				do(c09Case{Kind: "same-result", A: build(true), B: build(false)}, "interpolation/brackets", 7e6)
 			}
 		}
 	}
@@ -350,7 +509,7 @@ func c09Run(c *fw.Ctx) error {
 			do(c09Case{Kind: "reject", A: e}, fmt.Sprintf("accepted/operator-missing-operand/pattern%d", pi), 7e6)
 		}
 	}
-	c.Res.Bound = fmt.Sprintf("all %d^2 operator pairs x %d contexts, all %d^3 triples%s, %d layout seeds x every boundary x %d fillers (single, and double), redundant parentheses, bracket deletion/duplication, %d operators x 13 missing-operand patterns", len(ops), len(c09Contexts), len(ops), map[bool]string{false: " at top level", true: " in every context and all quadruples at top level"}[c.Thorough()], len(c09LayoutExprs), len(c09Fillers), len(ops))
+	c.Res.Bound = fmt.Sprintf("all %d^2 operator pairs x %d contexts, all %d^3 triples%s, %d layout seeds x every boundary x %d fillers (single, and double), redundant parentheses, bracket deletion/duplication, %d operators x 13 missing-operand patterns; %d kinds of term x 10 postfix path elements minus the %d pairs the pinned grammar does not accept (bare = bracketed); string interpolations with redundant brackets in every segment (same results)", len(ops), len(c09Contexts), len(ops), map[bool]string{false: " at top level", true: " in every context and all quadruples at top level"}[c.Thorough()], len(c09LayoutExprs), len(c09Fillers), len(ops), len(c09Terms), len(c09NoPostfix))
 	return nil
 }
 
